@@ -302,6 +302,11 @@ def r11_sir_sis(repo, rep, name):
             st = c.stmt
             if isinstance(st, ast.Assign) and _key(st.targets[0]) == setname and isinstance(st.value, ast.Call) \
                     and _key(st.value.func) == "_ListDict_":
+                # the flag written as the test itself: _ListDict_(weighted = <label> is not None), once, under no condition on the label
+                flag = [k.value for k in st.value.keywords if k.arg == "weighted"] or list(st.value.args[:1])
+                if flag and _key(flag[0]) in ("%sisnotNone" % label, "not%sisNone" % label, "not(%sisNone)" % label):
+                    n_ += 2
+                    continue
                 n_ += 1
                 weighted = any(k.arg == "weighted" and isinstance(k.value, ast.Constant) and k.value.value is True
                                for k in st.value.keywords) or (st.value.args and getattr(st.value.args[0], "value", None) is True)
